@@ -79,6 +79,14 @@ def make_plan(seed: int, tier: str) -> dict:
             form = "dict" if form == "multiindex" else form
             tdf = st.choice([None, False])
         plan["ops"].append({"form": form, "req": req, "order": sel, "to_dataframe": tdf, "interleave": st.bernoulli(0.3)})
+    # time axis "years since baseline" (drawn last): reference times around 0, requested ages around 0 and exactly 0.0 among them
+    if not fitted and st.bernoulli(0.25):
+        plan["axis"] = "since_baseline"
+        for op in plan["ops"]:
+            for pid, r in op["req"].items():
+                r["ages"] = [round(a - 72.0, 3) for a in r["ages"]]
+                if st.bernoulli(0.6):
+                    r["ages"][st.randint(0, len(r["ages"]) - 1)] = 0.0
     return plan
 
 
@@ -87,6 +95,8 @@ def build_model(plan):
     st = Stream(plan["mseed"], "model")
     if not plan["fitted"]:
         settings = ac.handwritten_settings(st, kind, nf)
+        if plan.get("axis") == "since_baseline":
+            settings["parameters"]["tau_mean"] = [round(settings["parameters"]["tau_mean"][0] - 70.0, 4)]
         model = ac.load_from_settings(settings)
         params = settings["parameters"]
     else:
@@ -117,6 +127,10 @@ def run_plan(plan: dict) -> dict:
     nfeat = plan["nf"] if not info["uni"] else 1
     if plan["fitted"]:
         C["probe.after_fit_model"] += 1
+    if plan.get("axis") == "since_baseline":
+        C["probe.time_axis_since_baseline"] += 1
+        if any(a == 0.0 for op in plan["ops"] for r in op["req"].values() for a in r["ages"]):
+            C["probe.age_exactly_zero"] += 1
     C[f"model.{kind}"] += 1
     keyparts = []
 
